@@ -127,7 +127,13 @@ impl CommandParser {
                         _ => None,
                     };
                     if let Some(ident) = ident {
-                        let name = ident.unraw().to_string();
+                        let mut name = ident.unraw().to_string();
+                        // The name of a struct is PascalCase where a parameter name is snake_case:
+                        // brought to the form the case conversions start from (UserPoint is
+                        // user_point under snake_case, userPoint under camelCase)
+                        if !matches!(pat.as_ref(), syn::Pat::Ident(_)) {
+                            name = serde_rename_rule::RenameRule::SnakeCase.apply_to_variant(&name);
+                        }
 
                         // Skip Tauri-specific parameters
                         if self.is_tauri_parameter_type(ty) {
